@@ -17,6 +17,12 @@ TARGETS = [('ws://example.com/chat', 'example.com', 80, False), ('ws://example.c
            ('ws://[2001:db8::9]:9000/v6', '2001:db8::9', 9000, False)]
 
 
+def _slow(data, parts=5, delay=14):
+    n = max(1, len(data) // parts)
+    chunks = [data[i:i + n] for i in range(0, len(data), n)]
+    return [W.Data(c, delay=delay) for c in chunks]
+
+
 def answers():
     big = b'HTTP/1.1 200 OK\r\nX-Pad: ' + b'p' * (16385 - len(b'HTTP/1.1 200 OK\r\nX-Pad: ') - 4) + b'\r\n\r\n'
     assert len(big) == 16385
@@ -41,6 +47,10 @@ def answers():
         '16385-cross': ([big[:16000], big[16000:]], False),
         '17000-unterminated': ([b'HTTP/1.1 200 OK\r\nX-Pad: ' + b'p' * 17000, W.Eof()], False),
         '40000-terminated': ([b'HTTP/1.1 200 OK\r\nX-Pad: ' + b'p' * 40000 + b'\r\n\r\n'], False),
+        # a slow proxy: every read returns well inside the socket time-out, the whole answer takes over a minute
+        '200-slow': (_slow(OK200), True),
+        '407-slow': (_slow(b'HTTP/1.1 407 Proxy Authentication Required\r\nProxy-Authenticate: Basic\r\n\r\n'), False),
+        'unterminated-slow-eof': (_slow(b'HTTP/1.1 200 OK\r\nX-One: 1\r\nX-Two: ') + [W.Eof(delay=14)], False),
     }
 
 
